@@ -1,5 +1,13 @@
 package main
 
+import (
+	"fmt"
+	"go/ast"
+	"go/token"
+	"sort"
+	"strings"
+)
+
 func init() {
 	generators["C04_gen"] = func(o *out) {
 		const c = "config"
@@ -45,5 +53,981 @@ func init() {
 			{"server", "Server", "serveSign"}, {"server", "Server", "serveGetKey"}, {"server", "Server", "serveListKeys"}, {"server", "Server", "Handler"}} {
 			fingerprint(fn[0], fn[1], fn[2])
 		}
+		fingerprint("internal/authmodel", "", "fingerprint")
+		fingerprint("internal/authmodel", "", "New")
+		c04History(o)
+	}
+}
+
+// =====================================================================================================================
+// Request-history part (authentication as a function of what the long-lived server saw before).
+// Everything below is private to the C04 generator (prefix c04).
+// =====================================================================================================================
+
+func c04norm(s string) string { return strings.Join(strings.Fields(s), " ") }
+
+func c04str(s string) string { return "\"" + strings.ReplaceAll(s, "\"", "\"\"") + "\"%string" }
+
+func (o *out) c04StrList(coqName string, items []string, comment string) {
+	parts := make([]string, len(items))
+	for i, it := range items {
+		parts[i] = "  " + c04str(it)
+	}
+	body := "[]"
+	if len(parts) > 0 {
+		body = "[\n" + strings.Join(parts, ";\n") + "\n]"
+	}
+	o.f("Definition %s : list string := %s. (* %s *)\n", coqName, body, comment)
+}
+
+func c04ZList(zs []int) string {
+	parts := make([]string, len(zs))
+	for i, z := range zs {
+		parts[i] = fmt.Sprintf("%d", z)
+	}
+	return "[" + strings.Join(parts, "; ") + "]"
+}
+
+// packages whose mutable state is inventoried (the packages of the C04 anchors)
+var c04StatePkgs = []string{"internal/authmodel", "internal/realip", "server", "config", "internal/httperror"}
+
+// functions that run before the first request is served (construction / configuration loading); writes made there are
+// not part of the request-handling inventory
+var c04Construction = map[string]bool{
+	"config:Config.Normalize": true, "config:.ReadFile": true, "config:.FromEnvironment": true, "config:Config.applyEnv": true,
+	"server:.New": true, "server:Server.openTokens": true, "server:Server.startHealthCheck": true,
+	"internal/authmodel:.New": true, "internal/authmodel:.newPolicyAuthenticator": true,
+	"internal/realip:.Middleware#outer": true, "internal/realip:.parseTrusted": true,
+}
+
+func c04RecvName(fd *ast.FuncDecl) (typ, ident string) {
+	if fd.Recv == nil || len(fd.Recv.List) != 1 {
+		return "", ""
+	}
+	t := fd.Recv.List[0].Type
+	if s, ok := t.(*ast.StarExpr); ok {
+		t = s.X
+	}
+	if id, ok := t.(*ast.Ident); ok {
+		typ = id.Name
+	}
+	if len(fd.Recv.List[0].Names) == 1 {
+		ident = fd.Recv.List[0].Names[0].Name
+	}
+	return
+}
+
+func c04Root(e ast.Expr) *ast.Ident {
+	for {
+		switch x := e.(type) {
+		case *ast.Ident:
+			return x
+		case *ast.SelectorExpr:
+			e = x.X
+		case *ast.IndexExpr:
+			e = x.X
+		case *ast.StarExpr:
+			e = x.X
+		case *ast.ParenExpr:
+			e = x.X
+		case *ast.CallExpr:
+			e = x.Fun
+		case *ast.TypeAssertExpr:
+			e = x.X
+		case *ast.SliceExpr:
+			e = x.X
+		default:
+			return nil
+		}
+	}
+}
+
+func c04IsFresh(e ast.Expr) bool {
+	switch x := e.(type) {
+	case *ast.CompositeLit:
+		return true
+	case *ast.UnaryExpr:
+		if x.Op == token.AND {
+			_, ok := x.X.(*ast.CompositeLit)
+			return ok
+		}
+	case *ast.CallExpr:
+		if id, ok := x.Fun.(*ast.Ident); ok && (id.Name == "new" || id.Name == "make") {
+			return true
+		}
+	case *ast.BasicLit:
+		return true
+	}
+	return false
+}
+
+var c04Mutators = map[string]bool{"Store": true, "LoadOrStore": true, "LoadAndDelete": true, "Delete": true, "Swap": true,
+	"CompareAndSwap": true, "CompareAndDelete": true, "Add": true, "Set": true, "Inc": true, "Dec": true, "Lock": true, "Unlock": true,
+	"RLock": true, "RUnlock": true, "Do": true, "Put": true, "Push": true, "Reset": true, "Clear": true}
+
+// c04Inventory: (1) package-level variables, (2) fields of the structs that hold request-handling state,
+// (3) every write to non-local state outside construction, for the anchored packages.
+func (o *out) c04Inventory() {
+	var vars, fields, writes []string
+	for _, dir := range c04StatePkgs {
+		p := loadPkg(dir)
+		var fnames []string
+		for n := range p.files {
+			fnames = append(fnames, n)
+		}
+		sort.Strings(fnames)
+		pkgVars := map[string]bool{}
+		for _, fn := range fnames {
+			for _, d := range p.files[fn].Decls {
+				gd, ok := d.(*ast.GenDecl)
+				if !ok {
+					continue
+				}
+				if gd.Tok == token.VAR {
+					for _, s := range gd.Specs {
+						vs := s.(*ast.ValueSpec)
+						for i, n := range vs.Names {
+							if n.Name == "_" {
+								continue
+							}
+							pkgVars[n.Name] = true
+							cls := ""
+							if vs.Type != nil {
+								cls = c04norm(printNode(p.fset, vs.Type))
+							} else if i < len(vs.Values) {
+								switch v := vs.Values[i].(type) {
+								case *ast.CompositeLit:
+									cls = c04norm(printNode(p.fset, v.Type)) + "{}"
+								case *ast.UnaryExpr:
+									if cl, ok := v.X.(*ast.CompositeLit); ok {
+										cls = "&" + c04norm(printNode(p.fset, cl.Type)) + "{}"
+									} else {
+										cls = "expr"
+									}
+								case *ast.CallExpr:
+									cls = c04norm(printNode(p.fset, v.Fun)) + "()"
+								case *ast.BasicLit:
+									cls = "literal"
+								default:
+									cls = "expr"
+								}
+							}
+							vars = append(vars, dir+"."+n.Name+" : "+cls)
+						}
+					}
+				}
+				if gd.Tok == token.TYPE && (dir == "internal/authmodel" || dir == "internal/realip" || dir == "server" || dir == "config") {
+					for _, s := range gd.Specs {
+						ts := s.(*ast.TypeSpec)
+						st, ok := ts.Type.(*ast.StructType)
+						if !ok {
+							continue
+						}
+						if dir == "config" && ts.Name.Name != "Config" && ts.Name.Name != "ClientConfig" {
+							continue
+						}
+						for _, fl := range st.Fields.List {
+							ty := c04norm(printNode(p.fset, fl.Type))
+							if strings.HasPrefix(ty, "struct {") {
+								ty = "struct{..}"
+							}
+							if len(fl.Names) == 0 {
+								fields = append(fields, dir+"."+ts.Name.Name+".(embedded) : "+ty)
+							}
+							for _, n := range fl.Names {
+								fields = append(fields, dir+"."+ts.Name.Name+"."+n.Name+" : "+ty)
+							}
+						}
+					}
+				}
+			}
+		}
+		for _, fn := range fnames {
+			for _, d := range p.files[fn].Decls {
+				fd, ok := d.(*ast.FuncDecl)
+				if !ok || fd.Body == nil {
+					continue
+				}
+				rt, rid := c04RecvName(fd)
+				key := dir + ":" + rt + "." + fd.Name.Name
+				if c04Construction[key] {
+					continue
+				}
+				// local identifiers bound to freshly created objects
+				fresh := map[string]bool{}
+				locals := map[string]bool{}
+				ast.Inspect(fd.Body, func(n ast.Node) bool {
+					switch x := n.(type) {
+					case *ast.AssignStmt:
+						if x.Tok == token.DEFINE {
+							for i, l := range x.Lhs {
+								if id, ok := l.(*ast.Ident); ok {
+									locals[id.Name] = true
+									if len(x.Lhs) == len(x.Rhs) && c04IsFresh(x.Rhs[i]) {
+										fresh[id.Name] = true
+									}
+								}
+							}
+						}
+					case *ast.DeclStmt:
+						if gd, ok := x.Decl.(*ast.GenDecl); ok && gd.Tok == token.VAR {
+							for _, s := range gd.Specs {
+								vs := s.(*ast.ValueSpec)
+								for i, id := range vs.Names {
+									locals[id.Name] = true
+									if len(vs.Values) == 0 || (i < len(vs.Values) && c04IsFresh(vs.Values[i])) {
+										fresh[id.Name] = true
+									}
+								}
+							}
+						}
+					case *ast.RangeStmt:
+						for _, e := range []ast.Expr{x.Key, x.Value} {
+							if id, ok := e.(*ast.Ident); ok {
+								locals[id.Name] = true
+							}
+						}
+					}
+					return true
+				})
+				params := map[string]bool{}
+				if fd.Type.Params != nil {
+					for _, f := range fd.Type.Params.List {
+						for _, n := range f.Names {
+							params[n.Name] = true
+						}
+					}
+				}
+				ast.Inspect(fd.Body, func(n ast.Node) bool { // parameters of function literals (per-call values as well)
+					if fl, ok := n.(*ast.FuncLit); ok && fl.Type.Params != nil {
+						for _, f := range fl.Type.Params.List {
+							for _, n := range f.Names {
+								params[n.Name] = true
+							}
+						}
+					}
+					return true
+				})
+				if fd.Type.Results != nil {
+					for _, f := range fd.Type.Results.List {
+						for _, n := range f.Names {
+							locals[n.Name] = true
+							fresh[n.Name] = true
+						}
+					}
+				}
+				record := func(kind string, e ast.Expr) {
+					root := c04Root(e)
+					rootKind := "?"
+					if root != nil {
+						switch {
+						case root.Name == rid && rid != "":
+							rootKind = "receiver"
+						case fresh[root.Name]:
+							return // object created in this call
+						case locals[root.Name]:
+							rootKind = "local-alias"
+						case params[root.Name]:
+							rootKind = "param"
+						case pkgVars[root.Name]:
+							rootKind = "package-var"
+						default:
+							rootKind = "outer"
+						}
+					}
+					writes = append(writes, key+" : "+kind+" "+c04norm(printNode(p.fset, e))+" ["+rootKind+"]")
+				}
+				ast.Inspect(fd.Body, func(n ast.Node) bool {
+					switch x := n.(type) {
+					case *ast.AssignStmt:
+						if x.Tok == token.DEFINE {
+							return true
+						}
+						for _, l := range x.Lhs {
+							switch l.(type) {
+							case *ast.SelectorExpr, *ast.IndexExpr, *ast.StarExpr:
+								record("assign", l)
+							case *ast.Ident:
+								id := l.(*ast.Ident)
+								if id.Name != "_" && !locals[id.Name] && !params[id.Name] && id.Name != rid {
+									record("assign", l)
+								}
+							}
+						}
+					case *ast.IncDecStmt:
+						switch x.X.(type) {
+						case *ast.SelectorExpr, *ast.IndexExpr, *ast.StarExpr:
+							record("incdec", x.X)
+						case *ast.Ident:
+							id := x.X.(*ast.Ident)
+							if !locals[id.Name] && !params[id.Name] {
+								record("incdec", x.X)
+							}
+						}
+					case *ast.CallExpr:
+						if se, ok := x.Fun.(*ast.SelectorExpr); ok && c04Mutators[se.Sel.Name] {
+							root := c04Root(se.X)
+							if root != nil && ((rid != "" && root.Name == rid) || pkgVars[root.Name]) {
+								record("call", x.Fun)
+							}
+						}
+					}
+					return true
+				})
+			}
+		}
+	}
+	o.c04StrList("c04_package_vars", vars, "package-level variables of the anchored packages (name : declared type or initialiser class)")
+	o.c04StrList("c04_state_fields", fields, "fields of every struct of internal/authmodel, internal/realip, server and of config.Config / config.ClientConfig")
+	o.c04StrList("c04_state_writes", writes, "writes to anything but objects created in the same call, outside construction functions; [root kind]")
+}
+
+// c04KeyClass: what a cache key expression inside Authenticate denotes: 1 = fingerprint(cert) (digest of the public key),
+// 2 = the whole certificate, 99 = anything else
+func c04KeyClass(p *pkgInfo, fd *ast.FuncDecl, e ast.Expr) int {
+	txt := c04norm(printNode(p.fset, e))
+	for depth := 0; depth < 3; depth++ {
+		id, ok := e.(*ast.Ident)
+		if !ok {
+			break
+		}
+		var def ast.Expr
+		ast.Inspect(fd.Body, func(n ast.Node) bool {
+			if as, ok := n.(*ast.AssignStmt); ok && len(as.Lhs) == len(as.Rhs) {
+				for i, l := range as.Lhs {
+					if li, ok := l.(*ast.Ident); ok && li.Name == id.Name && def == nil {
+						def = as.Rhs[i]
+					}
+				}
+			}
+			return true
+		})
+		if def == nil {
+			break
+		}
+		e = def
+		txt = c04norm(printNode(p.fset, e))
+	}
+	switch {
+	case txt == "fingerprint(cert)" || txt == "fingerprint(peerCerts[0])":
+		return 1
+	case strings.Contains(txt, "cert.Raw)") || strings.Contains(txt, "cert.Raw[") || strings.Contains(txt, "peerCerts[0].Raw)"):
+		return 2
+	}
+	return 99
+}
+
+// c04AuthShape: the parts of CertificateAuth.Authenticate that decide who the caller is
+func (o *out) c04AuthShape() {
+	const dir = "internal/authmodel"
+	p, fd := findFunc(dir, "CertificateAuth", "Authenticate")
+	if fd == nil {
+		o.brokenDef("auth_shape", "CertificateAuth.Authenticate not found")
+		return
+	}
+	_, rid := c04RecvName(fd)
+	// (a) receiver fields touched, and reads / writes of receiver state other than the configuration
+	fieldSet := map[string]bool{}
+	var loads, stores []int
+	var loadTxt, storeTxt []string
+	isState := func(e ast.Expr) (string, bool) { // e = recv.f... with f != Config
+		for {
+			se, ok := e.(*ast.SelectorExpr)
+			if !ok {
+				return "", false
+			}
+			if id, ok := se.X.(*ast.Ident); ok && id.Name == rid {
+				return se.Sel.Name, se.Sel.Name != "Config"
+			}
+			e = se.X
+		}
+	}
+	lhs := map[ast.Expr]bool{}
+	ast.Inspect(fd.Body, func(n ast.Node) bool {
+		switch x := n.(type) {
+		case *ast.AssignStmt:
+			if x.Tok != token.DEFINE {
+				for _, l := range x.Lhs {
+					lhs[l] = true
+					if ie, ok := l.(*ast.IndexExpr); ok {
+						if f, st := isState(ie.X); st {
+							stores = append(stores, c04KeyClass(p, fd, ie.Index))
+							storeTxt = append(storeTxt, f+"["+c04norm(printNode(p.fset, ie.Index))+"]=")
+						}
+					} else if f, st := isState(l); st {
+						stores = append(stores, 99)
+						storeTxt = append(storeTxt, f+"=")
+					}
+				}
+			}
+		case *ast.SelectorExpr:
+			if id, ok := x.X.(*ast.Ident); ok && id.Name == rid {
+				fieldSet[x.Sel.Name] = true
+			}
+		case *ast.CallExpr:
+			if se, ok := x.Fun.(*ast.SelectorExpr); ok {
+				if f, st := isState(se.X); st {
+					cls := 99
+					if len(x.Args) > 0 {
+						cls = c04KeyClass(p, fd, x.Args[0])
+					}
+					switch se.Sel.Name {
+					case "Load", "Get", "Peek", "Contains":
+						loads = append(loads, cls)
+						loadTxt = append(loadTxt, f+"."+se.Sel.Name)
+					case "LoadOrStore", "LoadAndDelete", "Swap", "CompareAndSwap":
+						loads = append(loads, cls)
+						stores = append(stores, cls)
+						loadTxt = append(loadTxt, f+"."+se.Sel.Name)
+						storeTxt = append(storeTxt, f+"."+se.Sel.Name)
+					case "Lock", "Unlock", "RLock", "RUnlock":
+					default:
+						stores = append(stores, cls)
+						storeTxt = append(storeTxt, f+"."+se.Sel.Name)
+					}
+				}
+			}
+		case *ast.IndexExpr:
+			if f, st := isState(x.X); st && !lhs[x] {
+				loads = append(loads, c04KeyClass(p, fd, x.Index))
+				loadTxt = append(loadTxt, f+"["+c04norm(printNode(p.fset, x.Index))+"]")
+			}
+		}
+		return true
+	})
+	var fl []string
+	for f := range fieldSet {
+		fl = append(fl, f)
+	}
+	sort.Strings(fl)
+	o.c04StrList("auth_receiver_fields", fl, "fields of the CertificateAuth receiver that Authenticate mentions")
+	o.f("Definition auth_memo_loads : list Z := %s. (* reads of authenticator state other than Config in Authenticate (key class: 1 public-key fingerprint, 2 whole certificate, 99 other): %s *)\n", c04ZList(loads), strings.Join(loadTxt, " "))
+	o.f("Definition auth_memo_stores : list Z := %s. (* writes of authenticator state in Authenticate: %s *)\n", c04ZList(stores), strings.Join(storeTxt, " "))
+
+	// order of the stages (source order): 0 refuse "certificate required", 1 lookup in the configured client table,
+	// 2 loop over the configured clients, 3 refuse "not recognised", 4 touch authenticator state, 5 return the user
+	var stages []int
+	ast.Inspect(fd.Body, func(n ast.Node) bool {
+		switch x := n.(type) {
+		case *ast.FuncLit:
+			return false // logging closures
+		case *ast.IndexExpr:
+			if c04norm(printNode(p.fset, x.X)) == rid+".Config.Clients" {
+				stages = append(stages, 1)
+			}
+		case *ast.RangeStmt:
+			if c04norm(printNode(p.fset, x.X)) == rid+".Config.Clients" {
+				stages = append(stages, 2)
+			}
+		case *ast.SelectorExpr:
+			if id, ok := x.X.(*ast.Ident); ok && id.Name == rid && x.Sel.Name != "Config" {
+				stages = append(stages, 4)
+			}
+		case *ast.ReturnStmt:
+			t := c04norm(printNode(p.fset, x))
+			switch {
+			case strings.Contains(t, "ErrCertificateRequired"):
+				stages = append(stages, 0)
+			case strings.Contains(t, "ErrCertificateNotRecognized"):
+				stages = append(stages, 3)
+			case t == "return user, nil":
+				stages = append(stages, 5)
+			case t == "return nil, err":
+				stages = append(stages, 6)
+			default:
+				stages = append(stages, 9)
+			}
+		}
+		return true
+	})
+	o.f("Definition auth_stage_order : list Z := %s. (* Authenticate, source order: 6 return the error of PeerCertificates, 0 refuse certificate-required, 1 lookup in the configured client table, 2 loop over the configured clients, 3 refuse not-recognised, 4 touch authenticator state, 5 return the user, 9 other return *)\n", c04ZList(stages))
+
+	// (b) the first lookup: client := a.Config.Clients[<key>]
+	first := ""
+	ast.Inspect(fd.Body, func(n ast.Node) bool {
+		if as, ok := n.(*ast.AssignStmt); ok && len(as.Lhs) == 1 && len(as.Rhs) == 1 && first == "" {
+			if id, ok := as.Lhs[0].(*ast.Ident); ok && id.Name == "client" {
+				first = c04norm(printNode(p.fset, as.Rhs[0]))
+				if ie, ok := as.Rhs[0].(*ast.IndexExpr); ok && c04norm(printNode(p.fset, ie.X)) == rid+".Config.Clients" {
+					o.f("Definition auth_first_lookup_key : Z := %d. (* client := %s *)\n", c04KeyClass(p, fd, ie.Index), first)
+				} else {
+					o.f("Definition auth_first_lookup_key : Z := 0. (* client := %s : NOT an index into the configured client table *)\n", first)
+				}
+			}
+		}
+		return true
+	})
+	if first == "" {
+		o.brokenDef("auth_first_lookup_key", "no assignment to `client` in Authenticate")
+	}
+	// which element of the presented chain is the caller's certificate
+	leaf := -1
+	ast.Inspect(fd.Body, func(n ast.Node) bool {
+		if as, ok := n.(*ast.AssignStmt); ok && len(as.Lhs) == 1 && len(as.Rhs) == 1 && leaf < 0 {
+			if id, ok := as.Lhs[0].(*ast.Ident); ok && id.Name == "cert" {
+				if ie, ok := as.Rhs[0].(*ast.IndexExpr); ok && c04norm(printNode(p.fset, ie.X)) == "peerCerts" {
+					if v, err := evalConst(dir, ie.Index, 0); err == nil {
+						leaf = int(v.i)
+					}
+				}
+			}
+		}
+		return true
+	})
+	if leaf < 0 {
+		o.brokenDef("auth_leaf_index", "no `cert := peerCerts[k]` in Authenticate")
+	} else {
+		o.f("Definition auth_leaf_index : Z := %d. (* cert := peerCerts[%d] *)\n", leaf, leaf)
+	}
+
+	// (c) the loop over the configured clients: what each arm of its if-chain does
+	var loop *ast.RangeStmt
+	ast.Inspect(fd.Body, func(n ast.Node) bool {
+		if rs, ok := n.(*ast.RangeStmt); ok && loop == nil && c04norm(printNode(p.fset, rs.X)) == rid+".Config.Clients" {
+			loop = rs
+		}
+		return true
+	})
+	if loop == nil {
+		o.brokenDef("auth_loop_action", "no range over "+rid+".Config.Clients in Authenticate")
+		return
+	}
+	lv := ""
+	if id, ok := loop.Value.(*ast.Ident); ok {
+		lv = id.Name
+	}
+	matchArg := 0
+	var chain *ast.IfStmt
+	extra := 0
+	for _, st := range loop.Body.List {
+		switch x := st.(type) {
+		case *ast.AssignStmt:
+			t := c04norm(printNode(p.fset, x))
+			if t == "match, err := "+lv+".Match(peerCerts)" {
+				matchArg = 1
+			} else if strings.HasPrefix(t, "match, err := "+lv+".Match(") {
+				matchArg = 2
+			} else {
+				extra++
+			}
+		case *ast.IfStmt:
+			if chain == nil {
+				chain = x
+			} else {
+				extra++
+			}
+		default:
+			extra++
+		}
+	}
+	o.f("Definition auth_match_arg : Z := %d. (* 1: every configured client is asked Match(peerCerts) with the whole presented chain *)\n", matchArg)
+	o.f("Definition auth_loop_extra_stmts : Z := %d. (* statements in the loop body besides the Match call and one if-chain *)\n", extra)
+	if chain == nil {
+		o.brokenDef("auth_loop_action", "loop body has no if statement")
+		return
+	}
+	action := func(b *ast.BlockStmt) int {
+		a := 0
+		for _, st := range b.List {
+			t := c04norm(printNode(p.fset, st))
+			switch {
+			case t == "client = "+lv:
+				a |= 1
+			case t == "break":
+				a |= 2
+			case t == "saved = err":
+				a |= 4
+			case t == "useDN = true":
+				a |= 8
+			default:
+				if _, st2 := func() (string, bool) {
+					found := false
+					ast.Inspect(st, func(n ast.Node) bool {
+						if se, ok := n.(*ast.SelectorExpr); ok {
+							if _, s := isState(se); s {
+								found = true
+							}
+						}
+						return true
+					})
+					return "", found
+				}(); st2 {
+					a |= 16
+				} else {
+					a |= 32
+				}
+			}
+		}
+		return a
+	}
+	var sb strings.Builder
+	cur := chain
+	okShape := true
+	for cur != nil {
+		ct := c04norm(printNode(p.fset, cur.Cond))
+		var c string
+		switch ct {
+		case "match":
+			c = "matched"
+		case "err != nil":
+			c = "has_err"
+		case "!match":
+			c = "(negb matched)"
+		case "err == nil":
+			c = "(negb has_err)"
+		case "match || err != nil":
+			c = "(matched || has_err)"
+		case "match && err == nil":
+			c = "(matched && negb has_err)"
+		default:
+			okShape = false
+		}
+		if cur.Init != nil {
+			okShape = false
+		}
+		fmt.Fprintf(&sb, "if %s then %d else ", c, action(cur.Body))
+		switch e := cur.Else.(type) {
+		case nil:
+			sb.WriteString("0")
+			cur = nil
+		case *ast.BlockStmt:
+			fmt.Fprintf(&sb, "%d", action(e))
+			cur = nil
+		case *ast.IfStmt:
+			cur = e
+		}
+	}
+	if !okShape {
+		o.brokenDef("auth_loop_action", "if-chain of the client loop has a condition the translator does not know: "+c04norm(printNode(p.fset, chain.Cond)))
+	} else {
+		o.f("Definition auth_loop_action (matched has_err : bool) : Z :=\n  %s.\n(* bits: 1 client = %s ; 2 break ; 4 saved = err ; 8 useDN = true ; 16 touches authenticator state ; 32 anything else *)\n", sb.String(), lv)
+	}
+}
+
+// c04Fingerprint: which part of the certificate fingerprint() digests, with which hash and encoding
+func (o *out) c04Fingerprint() {
+	const dir = "internal/authmodel"
+	p, fd := findFunc(dir, "", "fingerprint")
+	if fd == nil {
+		o.brokenDef("fp_source", "fingerprint not found")
+		return
+	}
+	src, hash, enc := 99, 0, 0
+	ast.Inspect(fd.Body, func(n ast.Node) bool {
+		if ce, ok := n.(*ast.CallExpr); ok {
+			fn := c04norm(printNode(p.fset, ce.Fun))
+			switch fn {
+			case "sha256.Sum256":
+				hash = 256
+			case "sha1.Sum":
+				hash = 1
+			case "sha512.Sum512":
+				hash = 512
+			case "md5.Sum":
+				hash = 5
+			case "hex.EncodeToString":
+				enc = 1
+			}
+			if strings.HasPrefix(fn, "sha") || strings.HasPrefix(fn, "md5") {
+				if len(ce.Args) == 1 {
+					switch c04norm(printNode(p.fset, ce.Args[0])) {
+					case "cert.RawSubjectPublicKeyInfo":
+						src = 1
+					case "cert.Raw":
+						src = 2
+					case "cert.RawSubject":
+						src = 3
+					case "cert.RawTBSCertificate":
+						src = 4
+					case "cert.RawIssuer":
+						src = 5
+					}
+				}
+			}
+		}
+		return true
+	})
+	o.f("Definition fp_source : Z := %d. (* fingerprint() digests: 1 RawSubjectPublicKeyInfo, 2 Raw, 3 RawSubject, 4 RawTBSCertificate, 5 RawIssuer, 99 unknown *)\n", src)
+	o.f("Definition fp_hash : Z := %d. (* 256 = sha256.Sum256 *)\n", hash)
+	o.f("Definition fp_encoding : Z := %d. (* 1 = hex.EncodeToString (lower case) *)\n", enc)
+}
+
+// c04Match: config.ClientConfig.Match — skip condition, what is verified against what, result mapping
+func (o *out) c04Match() {
+	const dir = "config"
+	p, fd := findFunc(dir, "ClientConfig", "Match")
+	if fd == nil {
+		o.brokenDef("match_skip", "ClientConfig.Match not found")
+		return
+	}
+	o.condOf(funcSpec{dir: dir, recv: "ClientConfig", name: "Match", coqName: "match_skip", params: "(no_pool : bool) (n_incoming : Z)", retType: "bool",
+		leaves: map[string]string{"cl.certs == nil": "no_pool", "cl.certs != nil": "(negb no_pool)", "len(incoming)": "n_incoming"},
+		types:  map[string]string{"cl.certs == nil": "bool", "cl.certs != nil": "bool", "len(incoming)": "Z"}}, "incoming", 0)
+	leaf, from := -1, -1
+	var opts *ast.CompositeLit
+	verifyOn := ""
+	ast.Inspect(fd.Body, func(n ast.Node) bool {
+		switch x := n.(type) {
+		case *ast.AssignStmt:
+			if len(x.Lhs) == 1 && len(x.Rhs) == 1 {
+				l := c04norm(printNode(p.fset, x.Lhs[0]))
+				if ie, ok := x.Rhs[0].(*ast.IndexExpr); ok && l == "leaf" && c04norm(printNode(p.fset, ie.X)) == "incoming" {
+					if v, err := evalConst(dir, ie.Index, 0); err == nil {
+						leaf = int(v.i)
+					}
+				}
+				if se, ok := x.Rhs[0].(*ast.SliceExpr); ok && l == "intermediates" && c04norm(printNode(p.fset, se.X)) == "incoming" && se.High == nil && se.Low != nil {
+					if v, err := evalConst(dir, se.Low, 0); err == nil {
+						from = int(v.i)
+					}
+				}
+			}
+		case *ast.CallExpr:
+			if se, ok := x.Fun.(*ast.SelectorExpr); ok && se.Sel.Name == "Verify" {
+				verifyOn = c04norm(printNode(p.fset, se.X))
+				if len(x.Args) == 1 {
+					if cl, ok := x.Args[0].(*ast.CompositeLit); ok {
+						opts = cl
+					}
+				}
+			}
+		}
+		return true
+	})
+	o.f("Definition match_leaf_index : Z := %d. (* leaf := incoming[k] *)\n", leaf)
+	o.f("Definition match_inter_from : Z := %d. (* intermediates := incoming[k:] *)\n", from)
+	o.f("Definition match_verify_on_leaf : bool := %v. (* the certificate whose Verify is called: %s *)\n", verifyOn == "leaf", verifyOn)
+	if opts == nil {
+		o.brokenDef("match_opts_eku", "no x.Verify(x509.VerifyOptions{...}) call in Match")
+		return
+	}
+	var keys []string
+	roots, inter, setsTime := false, false, false
+	var eku []int
+	hasEku := false
+	for _, el := range opts.Elts {
+		kv, ok := el.(*ast.KeyValueExpr)
+		if !ok {
+			keys = append(keys, "?")
+			continue
+		}
+		k := c04norm(printNode(p.fset, kv.Key))
+		v := c04norm(printNode(p.fset, kv.Value))
+		keys = append(keys, k)
+		switch k {
+		case "Roots":
+			roots = v == "cl.certs"
+		case "Intermediates":
+			inter = v == "ipool"
+		case "CurrentTime":
+			setsTime = true
+		case "KeyUsages":
+			hasEku = true
+			if cl, ok := kv.Value.(*ast.CompositeLit); ok {
+				for _, e := range cl.Elts {
+					switch c04norm(printNode(p.fset, e)) {
+					case "x509.ExtKeyUsageAny":
+						eku = append(eku, 0)
+					case "x509.ExtKeyUsageServerAuth":
+						eku = append(eku, 1)
+					case "x509.ExtKeyUsageClientAuth":
+						eku = append(eku, 2)
+					default:
+						eku = append(eku, 99)
+					}
+				}
+			} else {
+				eku = append(eku, 99)
+			}
+		}
+	}
+	_ = hasEku
+	o.c04StrList("match_opts_keys", keys, "fields set in the x509.VerifyOptions literal")
+	o.f("Definition match_opts_roots_is_pool : bool := %v. (* Roots: cl.certs — the CA pool of THIS client entry *)\n", roots)
+	o.f("Definition match_opts_inter_is_rest : bool := %v. (* Intermediates: pool built from the rest of the presented chain *)\n", inter)
+	o.f("Definition match_opts_sets_time : bool := %v. (* CurrentTime given (false: Verify uses the time of the call) *)\n", setsTime)
+	o.f("Definition match_opts_eku : list Z := %s. (* KeyUsages: 0 any, 1 serverAuth, 2 clientAuth, 99 other; [] means Go's default = serverAuth *)\n", c04ZList(eku))
+	// result mapping: the statements after the Verify call
+	var tail []ast.Stmt
+	for i, st := range fd.Body.List {
+		if as, ok := st.(*ast.AssignStmt); ok && strings.Contains(c04norm(printNode(p.fset, as)), ".Verify(") {
+			tail = fd.Body.List[i+1:]
+		}
+	}
+	ret := func(r *ast.ReturnStmt) string {
+		if len(r.Results) != 2 {
+			return ""
+		}
+		a, b := c04norm(printNode(p.fset, r.Results[0])), c04norm(printNode(p.fset, r.Results[1]))
+		if (a != "true" && a != "false") || (b != "nil" && b != "err") {
+			return ""
+		}
+		e := "false"
+		if b == "err" {
+			e = "true"
+		}
+		return "(" + a + ", " + e + ")"
+	}
+	var sb strings.Builder
+	good := len(tail) == 2
+	if good {
+		is, ok1 := tail[0].(*ast.IfStmt)
+		rs, ok2 := tail[1].(*ast.ReturnStmt)
+		if !ok1 || !ok2 {
+			good = false
+		} else {
+			cur := is
+			for cur != nil && good {
+				c := ""
+				ct := c04norm(printNode(p.fset, cur.Cond))
+				it := ""
+				if cur.Init != nil {
+					it = c04norm(printNode(p.fset, cur.Init))
+				}
+				switch {
+				case it == "" && ct == "err == nil":
+					c = "verify_ok"
+				case it == "" && ct == "err != nil":
+					c = "(negb verify_ok)"
+				case it == "_, ok := err.(x509.UnknownAuthorityError)" && ct == "ok":
+					c = "unknown_authority"
+				default:
+					good = false
+				}
+				if len(cur.Body.List) != 1 {
+					good = false
+					break
+				}
+				r, ok := cur.Body.List[0].(*ast.ReturnStmt)
+				if !ok || ret(r) == "" {
+					good = false
+					break
+				}
+				fmt.Fprintf(&sb, "if %s then %s else ", c, ret(r))
+				switch e := cur.Else.(type) {
+				case nil:
+					cur = nil
+				case *ast.IfStmt:
+					cur = e
+				default:
+					good = false
+				}
+			}
+			if ret(rs) == "" {
+				good = false
+			} else {
+				sb.WriteString(ret(rs))
+			}
+		}
+	}
+	if !good {
+		o.brokenDef("match_result", "the statements after leaf.Verify in Match are not the if-chain the translator knows")
+	} else {
+		o.f("Definition match_result (verify_ok unknown_authority : bool) : bool * bool :=\n  %s.\n(* (matched, error returned) *)\n", sb.String())
+	}
+}
+
+// c04Routes: Handler() — middleware order and which routes sit behind the authentication middleware;
+// authmodel.Middleware — a failed Authenticate ends the request
+func (o *out) c04Routes() {
+	p, fd := findFunc("server", "Server", "Handler")
+	if fd == nil {
+		o.brokenDef("handler_routes", "Server.Handler not found")
+		return
+	}
+	authVars := map[string]bool{}
+	var uses, routes []string
+	methods := map[string]bool{"Get": true, "Post": true, "Put": true, "Delete": true, "Patch": true, "Head": true, "Options": true,
+		"Handle": true, "HandleFunc": true, "Method": true, "MethodFunc": true, "Mount": true, "Connect": true, "Trace": true, "NotFound": true}
+	for _, st := range fd.Body.List {
+		switch x := st.(type) {
+		case *ast.AssignStmt:
+			if len(x.Lhs) == 1 && len(x.Rhs) == 1 {
+				r := c04norm(printNode(p.fset, x.Rhs[0]))
+				if strings.Contains(r, ".With(") {
+					l := c04norm(printNode(p.fset, x.Lhs[0]))
+					if r == "r.With(authmodel.Middleware(s.auth))" {
+						authVars[l] = true
+					}
+					uses = append(uses, l+" := "+r)
+				}
+			}
+		case *ast.ExprStmt:
+			ce, ok := x.X.(*ast.CallExpr)
+			if !ok {
+				continue
+			}
+			se, ok := ce.Fun.(*ast.SelectorExpr)
+			if !ok {
+				continue
+			}
+			rv := c04norm(printNode(p.fset, se.X))
+			if se.Sel.Name == "Use" {
+				var as []string
+				for _, a := range ce.Args {
+					as = append(as, c04norm(printNode(p.fset, a)))
+				}
+				uses = append(uses, rv+".Use "+strings.Join(as, ","))
+			} else if methods[se.Sel.Name] {
+				var as []string
+				for _, a := range ce.Args {
+					as = append(as, c04norm(printNode(p.fset, a)))
+				}
+				cls := "public"
+				if authVars[rv] {
+					cls = "auth"
+				}
+				routes = append(routes, cls+" "+se.Sel.Name+" "+strings.Join(as, " "))
+			} else {
+				routes = append(routes, "other "+c04norm(printNode(p.fset, x)))
+			}
+		}
+	}
+	o.c04StrList("handler_middleware", uses, "server.Handler: middleware registration, in order")
+	o.c04StrList("handler_routes", routes, "server.Handler: routes; auth = registered on r.With(authmodel.Middleware(s.auth))")
+	o.callOrder("internal/authmodel", "", "Middleware", "mw_call_order", []string{"a.Authenticate", "h.ServeHTTP", "zhttp.WriteUnhandledError", "next.ServeHTTP"})
+	// the err != nil arm must end the request
+	p2, fd2 := findFunc("internal/authmodel", "", "Middleware")
+	if fd2 == nil {
+		o.brokenDef("mw_err_returns", "authmodel.Middleware not found")
+		return
+	}
+	found, returns, firstIsAuth := false, false, false
+	ast.Inspect(fd2.Body, func(n ast.Node) bool {
+		fl, ok := n.(*ast.FuncLit)
+		if !ok || fl.Type.Params == nil || len(fl.Type.Params.List) != 2 {
+			return true
+		}
+		if len(fl.Body.List) > 0 {
+			firstIsAuth = c04norm(printNode(p2.fset, fl.Body.List[0])) == "info, err := a.Authenticate(r)"
+		}
+		for _, st := range fl.Body.List {
+			if is, ok := st.(*ast.IfStmt); ok && c04norm(printNode(p2.fset, is.Cond)) == "err != nil" && !found {
+				found = true
+				if k := len(is.Body.List); k > 0 {
+					_, returns = is.Body.List[k-1].(*ast.ReturnStmt)
+				}
+			}
+		}
+		return true
+	})
+	o.f("Definition mw_first_is_authenticate : bool := %v. (* the request handler of authmodel.Middleware starts with info, err := a.Authenticate(r) *)\n", firstIsAuth)
+	o.f("Definition mw_err_returns : bool := %v. (* its `if err != nil` arm ends with return *)\n", found && returns)
+}
+
+func c04History(o *out) {
+	o.f("\nRequire Import Coq.Strings.String.\n(* ---- request-history part ---- *)\n")
+	const am = "internal/authmodel"
+	al := map[string]string{"len(peerCerts)": "n_certs", "client == nil": "client_nil", "client != nil": "(negb client_nil)", "err != nil": "has_err"}
+	at := map[string]string{"len(peerCerts)": "Z", "client == nil": "bool", "client != nil": "bool", "err != nil": "bool"}
+	o.condOf(funcSpec{dir: am, recv: "CertificateAuth", name: "Authenticate", coqName: "auth_no_cert", params: "(n_certs : Z)", retType: "bool", leaves: al, types: at}, "len(peerCerts)", 0)
+	o.condOf(funcSpec{dir: am, recv: "CertificateAuth", name: "Authenticate", coqName: "auth_try_ca", params: "(client_nil : bool)", retType: "bool", leaves: al, types: at}, "if:client", 0)
+	o.c04AuthShape()
+	o.c04Fingerprint()
+	o.c04Match()
+	o.c04Routes()
+	o.c04Inventory()
+	for _, fn := range [][3]string{{"internal/authmodel", "", "RequestInfo"}, {"internal/realip", "", "requestTrusted"}} {
+		fingerprint(fn[0], fn[1], fn[2])
 	}
 }
